@@ -10,7 +10,7 @@ import numpy as np
 
 from rv import core, zoo, monitors, fcsgen
 
-ANCHORS = ['mean', 'gmean', 'median', 'mode', 'std', 'cv', 'gstd', 'gcv', 'iqr', 'rcv', 'FCSData.__getitem__', 'FCSData.__array_wrap__']      # functions the property is anchored in: never entered => inconclusive
+ANCHORS = ['mean', 'gmean', 'median', 'mode', 'std', 'cv', 'gstd', 'gcv', 'iqr', 'rcv']      # functions the property is anchored in: never entered => inconclusive
 LEVEL = 'exploration'
 LEVEL_TEXT = "Contracts on the ten statistics with pure-Python textbook oracles (fsum, sorted middle, linear-interpolation quartiles, log-domain), tolerance by container dtype, container/spelling equivalence and identities; also in situ in the Excel workflow and under the repository's tests. Exploration."
 TECHNIQUE = 'runtime contracts on the ten statistics with pure-Python textbook oracles + container/spelling equivalence driver'
